@@ -129,7 +129,7 @@ PROPERTIES = {
                         "the independent spec reading uses the cache's SuperscalarHash instruction lists and reciprocal table (their generation is C09/C18)"],
         "expected_probes": ["dataset_branch_lt4", "dataset_branch_mult4", "dataset_branch_tail", "dataset_last_item", "ds_items_checked", "ds_poison_checked"],
         "tiers": {
-            "quick": [B("plain-small-a", "plain", "small-a", 4000, 30), B("plain-small-b", "plain", "small-b", 1500, 10), B("keysweep-small-a", "plain", "small-a", 100000, 20, mode="keysweep"), B("preempt-small-a", "plain", "small-a", 2000, 15, mode="preempt"), B("tsan-small-a", "tsan", "small-a", 600, 20),
+            "quick": [B("plain-small-a", "plain", "small-a", 4000, 30), B("plain-small-b", "plain", "small-b", 1500, 10), B("keysweep-small-a", "plain", "small-a", 100000, 25, mode="keysweep"), B("preempt-small-a", "plain", "small-a", 2000, 15, mode="preempt"), B("tsan-small-a", "tsan", "small-a", 600, 20),
                       B("plain-shipped", "plain", "shipped", 64, 40, workers=8, gate=4)],
             "thorough": [B("plain-small-a", "plain", "small-a", 150000, 300), B("plain-small-b", "plain", "small-b", 60000, 120), B("keysweep-small-a", "plain", "small-a", 1000000, 300, mode="keysweep"), B("preempt-small-a", "plain", "small-a", 60000, 240, mode="preempt"), B("tsan-small-a", "tsan", "small-a", 20000, 240),
                          B("plain-shipped", "plain", "shipped", 2000, 420, workers=8, gate=8), B("full-dataset-shipped", "plain", "shipped", 3, 1500, workers=3, mode="fullshipped", gate=0, hang_s=3600),
